@@ -691,6 +691,10 @@ func Run(root func(), ch Chooser, cfg func(*Exec)) *Exec {
 		cfg(x)
 	}
 	X = x
+	for _, g := range globalChans {
+		g.buf, g.closed, g.NRecv, g.NSend = nil, false, 0, 0
+		x.chans = append(x.chans, g)
+	}
 	x.spawn(nil, root, "root")
 	for {
 		ts := x.enabled()
